@@ -53,7 +53,7 @@ impl Agent for Scripted {
             None => {
                 // script over: ask for the stop (a runner must honour it); a loop that ignores it is cut off
                 self.extra += 1;
-                if self.extra > 8 {
+                if self.extra > 64 {
                     std::panic::panic_any(ScriptOver);
                 }
                 if let Some(tx) = &self.tx {
